@@ -420,6 +420,8 @@ impl PersistBackend for FilePersist {
             }
         }
 
+        #[cfg(inputlayer_verif)]
+        crate::verif_hooks::yield_point("persist.append.after_wal");
         // Add to buffer
         let should_flush = {
             let mut shards = self.shards.write();
@@ -442,6 +444,8 @@ impl PersistBackend for FilePersist {
             state.buffer.len() >= self.config.buffer_size
         };
 
+        #[cfg(inputlayer_verif)]
+        crate::verif_hooks::yield_point("persist.append.after_buffer");
         // Flush if buffer is full
         if should_flush {
             self.flush(shard)?;
@@ -488,6 +492,8 @@ impl PersistBackend for FilePersist {
         // Flush first to ensure all data is in batches
         self.flush(shard)?;
 
+        #[cfg(inputlayer_verif)]
+        crate::verif_hooks::yield_point("persist.compact.after_flush");
         let mut shards = self.shards.write();
         let state = shards
             .get_mut(shard)
@@ -610,6 +616,8 @@ impl PersistBackend for FilePersist {
             return Err(e);
         }
 
+        #[cfg(inputlayer_verif)]
+        crate::verif_hooks::yield_point("persist.flush.before_wal");
         // Step 3: Remove WAL entries LAST (safe - metadata already points to batch)
         {
             let mut wal = self.wal.lock();
@@ -626,6 +634,8 @@ impl PersistBackend for FilePersist {
             shards.remove(shard)
         }; // write lock released - other shards unblocked
 
+        #[cfg(inputlayer_verif)]
+        crate::verif_hooks::yield_point("persist.delete_shard.after_unmap");
         // Step 2: Delete batch files FIRST (crash-safe ordering)
         // If we crash here, metadata still references them but they're gone.
         // On next startup, load_shards will see missing files and handle gracefully.
@@ -649,6 +659,8 @@ impl PersistBackend for FilePersist {
             wal.remove_shard_entries(shard)?;
         }
 
+        #[cfg(inputlayer_verif)]
+        crate::verif_hooks::yield_point("persist.delete_shard.after_wal");
         // Step 4: Delete metadata file LAST (crash-safe ordering)
         // After this, the shard is fully removed from disk.
         let meta_path = self
